@@ -7,7 +7,8 @@
  *   c10 <mpr> <kopts> <res> <unk> <prx> <hact> <loc> <dgram>
  *     mpr    0|1                      coap_mcast_per_resource()
  *     kopts  - | n,n,...              coap_register_option()
- *     res    - | path/mask/flags,...  path = bytes token (hex or -), mask bit (m-1) = method m
+ *     res    - | path/mask/flags/obs,...  path = bytes token (hex or -), mask bit (m-1) = method m,
+ *                                      obs = 1: observable
  *     unk    - | mask/flags           coap_resource_unknown_init2
  *     prx    - | mask/flags/h+h+...   coap_resource_proxy_uri_init2, h = host name bytes token
  *     hact   code/opts/payload        what every handler does: opts = - | num=hex+num=hex
@@ -159,11 +160,13 @@ static int setup(const char *mpr, const char *kopts, const char *res, const char
     for (char *it = strtok_r(tmp, ",", &save); it; it = strtok_r(NULL, ",", &save)) {
       char *s2 = NULL;
       char *p = strtok_r(it, "/", &s2), *m = strtok_r(NULL, "/", &s2), *f = strtok_r(NULL, "/", &s2);
+      char *ob = strtok_r(NULL, "/", &s2);
       size_t n;
       uint8_t *pb = bytes_of_tok(p, &n);
       coap_str_const_t sc = {n, pb};
       coap_resource_t *r = coap_resource_init(&sc, atoi(f) & ~COAP_RESOURCE_FLAGS_RELEASE_URI);
       reg_methods(r, (unsigned)atoi(m));
+      if (ob && atoi(ob)) coap_resource_set_get_observable(r, 1);
       coap_add_resource(ctx, r);
       free(pb);
     }
